@@ -3,6 +3,8 @@
 -/
 import MudExec.Proto
 import MudModel.Batch
+import MudModel.Generators
+import MudModel.Ehrenfest
 
 namespace Mud.Exec
 open Mud
@@ -27,6 +29,51 @@ def opBatch : Op := do
   let hh := (List.range (maxh + 1)).map (hopHist l)
   pure (oList oc ++ oList cn ++ oList hh)
 
-def tableC : List (String × Op) := [("batch", opBatch)]
+/-- `boltz scale n m.. z.. kt` → momenta -/
+def opBoltz : Op := do
+  let scale ← bool
+  let n ← nat
+  let m ← vec n
+  let z ← vec n
+  let kt ← flt
+  if scale then pure (oVec (boltzmannScaled m z kt) ++ [oF (avgKE (boltzmannScaled m z kt) m)])
+  else pure (oVec (boltzmannRaw m z kt) ++ [oF (avgKE (boltzmannRaw m z kt) m)])
+
+/-- `normal n pos.. mom.. sigma.. zx.. zk..` → x.. k.. skip -/
+def opNormal : Op := do
+  let n ← nat
+  let pos ← vec n
+  let mom ← vec n
+  let sg ← vec n
+  let zx ← vec n
+  let zk ← vec n
+  let (x, k) := normalSample pos mom sg zx zk
+  pure (oVec x ++ oVec k ++ [oB (kskip k)])
+
+/-- `spawn entropy keylen key.. nspawned k` → for each child: keylen' key'.. -/
+def opSpawn : Op := do
+  let e ← nat
+  let kl ← nat
+  let key ← listOf kl nat
+  let ns ← nat
+  let k ← nat
+  let s : SeedSeq := { entropy := e, spawnKey := key, nSpawned := ns }
+  let (cs, s') := s.spawn k
+  pure (cs.flatMap (fun c => oN c.spawnKey.length :: c.spawnKey.map oN) ++ [oN s'.nSpawned])
+
+/-- `ehrenfest N n rho(N×N cx) H(N×N) F(N×n) FM(N×N×n)` → potential, pinned force (n), spec force (n) -/
+def opEhrenfest : Op := do
+  let N ← nat
+  let n ← nat
+  let rho ← cmat N N
+  let H ← mat N N
+  let F ← mat N n
+  let fm ← arr (N * N * n) flt
+  let FM : Fin N → Fin N → Fin n → Float := fun i j x => fm.getD ((i.val * N + j.val) * n + x.val) 0.0
+  pure ([oF (ehrenfestPotential rho H)] ++ oVec (ehrenfestForcePinned rho F) ++ oVec (ehrenfestForceSpec rho FM))
+
+def tableC : List (String × Op) :=
+  [("batch", opBatch), ("boltz", opBoltz), ("normal", opNormal), ("spawn", opSpawn),
+   ("ehrenfest", opEhrenfest)]
 
 end Mud.Exec
